@@ -318,10 +318,39 @@ NESTED_THEOREMS = NESTED_THEOREMS + ["OdxVerif.Codec." + t for t in [
 
 
 # --- W20: the GENERATED is_required family against PKind.required of the nested tier. OdxVerif.Props.C08GenRequiredNested imports
-# Props.C08Nested2 (and Proofs/CodecRequiredGenEq.lean), so it takes its place as the separately built + audited module: audit_nested
-# builds it (which builds C08Nested2 and C08Nested) and prints the axioms of all their theorems in that one environment. The generator
-# regen_required (above, earlier in GENERATORS) has rewritten Gen/CodecRequired.lean from the current source before this build.
-NESTED_TARGET = "OdxVerif.Props.C08GenRequiredNested"
-EXTRA_LEAN_TARGETS = EXTRA_LEAN_TARGETS + [NESTED_TARGET]
-NESTED_THEOREMS = NESTED_THEOREMS + ["OdxVerif.Codec." + t for t in [
-    "PKind.isRequired_eq_required", "C08_gen_required_nested", "C08_gen_required_iff_not_omittable"]]
+# Props.C08Nested2 (and Proofs/CodecRequiredGenEq.lean), so it cannot be imported next to Props/C08Struct.lean either; it is built and
+# audited on its own (lean/Audit/C08GenRequiredNested.lean) and NOT chained into NESTED_TARGET: when the source of an is_required
+# property changes and this tie breaks, the nested-tier theorems above stay audited. The generator regen_required (earlier in
+# GENERATORS) has rewritten Gen/CodecRequired.lean from the current source before this build.
+GEN_NESTED_TARGET = "OdxVerif.Props.C08GenRequiredNested"
+EXTRA_LEAN_TARGETS = EXTRA_LEAN_TARGETS + [GEN_NESTED_TARGET]
+GEN_NESTED_THEOREMS = ["OdxVerif.Codec." + t for t in ["PKind.isRequired_eq_required", "C08_gen_required_nested", "C08_gen_required_iff_not_omittable"]]
+
+
+def audit_gen_required_nested(ctx):
+    """build + `#print axioms` of Props/C08GenRequiredNested.lean in an environment of its own"""
+    import re
+    import common
+    rc, out = common.sh(["lake", "build", GEN_NESTED_TARGET], cwd=common.LEAN)
+    if rc != 0:
+        for t in GEN_NESTED_THEOREMS:
+            ctx.obligation(t, False, "build of %s failed" % GEN_NESTED_TARGET)
+        raise RuntimeError("lake build %s failed: %s" % (GEN_NESTED_TARGET, " | ".join([l for l in out.splitlines() if "error" in l][:5])))
+    audit = common.LEAN / "Audit" / "C08GenRequiredNested.lean"
+    audit.parent.mkdir(parents=True, exist_ok=True)
+    audit.write_text("import %s\n" % GEN_NESTED_TARGET + "\n".join("#print axioms %s" % t for t in GEN_NESTED_THEOREMS) + "\n")
+    rc, out = common.sh(["lake", "env", "lean", str(audit)], cwd=common.LEAN)
+    text = out.replace("\n  ", " ")
+    axioms = {}
+    for m in re.finditer(r"'([^']+)' (depends on axioms: \[([^\]]*)\]|does not depend on any axioms)", text):
+        axioms[m.group(1)] = set(a.strip() for a in (m.group(3) or "").split(",") if a.strip())
+    for t in GEN_NESTED_THEOREMS:
+        if t in axioms and axioms[t] <= common.STD_AXIOMS:
+            ctx.obligation(t, True, "axioms: " + ",".join(sorted(axioms[t])))
+        elif t in axioms:
+            ctx.obligation(t, False, "non-standard axioms: " + ",".join(sorted(axioms[t] - common.STD_AXIOMS)))
+        else:
+            ctx.obligation(t, False, "theorem not found in compiled environment")
+
+
+GENERATORS = list(globals().get("GENERATORS", [])) + [audit_gen_required_nested]
